@@ -225,7 +225,10 @@ class MailboxData(MailboxDataInterface[Message]):
                               wait_on: Event | None = None) -> SelectedMailbox:
         if wait_on is not None:
             either_event = wait_on.or_event(self._updated)
-            await either_event.wait()
+            mod_sequence = selected.mod_sequence
+            if mod_sequence is None \
+                    or self._mod_sequences.highest <= mod_sequence:
+                await either_event.wait()
         mod_sequence = selected.mod_sequence
         selected.mod_sequence = self._mod_sequences.highest
         if mod_sequence is None:
